@@ -4,6 +4,7 @@ import (
 	"fmt"
 	"sort"
 	"strings"
+	"sync"
 
 	tls "github.com/refraction-networking/utls"
 	"github.com/refraction-networking/utls/verifshim/sched"
@@ -233,19 +234,25 @@ func c36Concurrent(nThreads, preemptBound int, capsMenu []int, progMenu [][]lruO
 			real.Put("b", lruVals[0])
 			clock := 0
 			var calls []*lruCall
+			var hmu sync.Mutex // harness bookkeeping only (never held across a hooked operation)
 			out := sched.Run(x, sched.Options{Context: ctx}, func() {
 				for ti := 0; ti < nThreads; ti++ {
 					ti := ti
 					sched.GoNamed(fmt.Sprintf("T%d", ti), false, func() {
 						for _, o := range progs[ti] {
 							c := &lruCall{thread: ti, op: o}
+							hmu.Lock()
 							clock++
 							c.call = clock
 							calls = append(calls, c)
-							c.val, c.ok = applyReal(real, o)
+							hmu.Unlock()
+							v, ok := applyReal(real, o)
+							hmu.Lock()
+							c.val, c.ok = v, ok
 							clock++
 							c.ret = clock
 							c.finished = true
+							hmu.Unlock()
 						}
 					})
 				}
@@ -373,6 +380,9 @@ func c36Scenarios(thorough bool) []*explore.Scenario {
 
 func init() {
 	register(&Prop{ID: "C36", Level: "model_checking", Variant: "B", Scenarios: c36Scenarios,
+		RaceScenarios: func(thorough bool) []*explore.Scenario {
+			return []*explore.Scenario{c36Concurrent(3, 0, []int{1, 2}, lruPrograms[:4])}
+		},
 		Run: func(c *explore.Check, thorough bool) {
 			c.Rule = "sequential: every history of Put/Put-nil/Get over 3 keys x 2 values up to the depth bound, per capacity, deduplicated on the reference LRU state; " +
 				"concurrent: every schedule (preemption-bounded in quick, unbounded with happens-before state pruning in thorough) of N threads x programs from a collision-forcing menu on the real cache under the controlled scheduler; " +
@@ -382,6 +392,6 @@ func init() {
 				"reference model: slice-based LRU where Put(k,nil) deletes",
 			}
 			runAll(c, c36Scenarios(thorough), 0)
-			c.Gate(c.Total.Counters["x"] >= 0, "")
+			attachRacePass(c)
 		}})
 }
